@@ -762,6 +762,11 @@ func TestVerifC01(t *testing.T) {
 			t.Fatalf("world: %v", err)
 		}
 		emitHist(cons, 4, res.hist.spec, res, "script-stale-lock-failed-fetch")
+		res2, err := c01StaleQCLeader(cons, 7)
+		if err != nil {
+			t.Fatalf("world: %v", err)
+		}
+		emitHist(cons, 4, res2.hist.spec, res2, "script-stale-qc-leader")
 	}
 	for _, cons := range []string{"chainedhotstuff", "simplehotstuff", "fasthotstuff"} {
 		res, err := c01CatchUp(cons, 7)
@@ -1247,6 +1252,123 @@ func c01StaleLock(cons string, seed int64) (*c01Result, error) {
 				qc, okf = certify(nb)
 				parent = nb
 			}
+		}
+	}
+	return c01Finish(h, live, 0), nil
+}
+
+// c01StaleQCLeader: the lock must never move backwards. Replica 4 (Byzantine) leads every view.
+// A <- B <- D <- E is voted by everybody (locks on B); F (QC E) is shown to replica 1 only, which
+// commits [A, B]. The leader then proposes N on top of B with the OLD QC(B): replicas 2 and 3 vote
+// (N extends their lock); processing N must not move their lock back to A. It then proposes W on
+// top of A with QC(A): with the lock on B replicas 2 and 3 refuse; a regressed lock lets them
+// certify W and three descendants commit W next to the committed B.
+func c01StaleQCLeader(cons string, seed int64) (*c01Result, error) {
+	spec := wSpec{consensus: cons, n: 4, byz: []hotstuff.ID{4}, seed: seed}
+	for i := 0; i < 30; i++ {
+		spec.leaders = append(spec.leaders, 4)
+	}
+	w, err := newWorld(spec)
+	if err != nil {
+		return nil, err
+	}
+	h := newC01Hist(w, spec)
+	B := w.nodes[NodeID{ReplicaID: 4}]
+	h1, h2, h3 := w.nodes[NodeID{ReplicaID: 1}], w.nodes[NodeID{ReplicaID: 2}], w.nodes[NodeID{ReplicaID: 3}]
+	live := []*wNode{h1, h2, h3}
+	for _, id := range w.order {
+		w.partition[id] = 0
+	}
+	flush := func() {
+		for guard := 0; len(w.pending) > 0 && guard < 10000; guard++ {
+			m := w.pending[0]
+			w.pending = w.pending[1:]
+			to := w.nodes[m.to]
+			if to.byz {
+				w.byzHandle(to, m.payload)
+				h.observe(nil)
+				continue
+			}
+			if p, ok := m.payload.(hotstuff.ProposeMsg); ok {
+				w.regProposal(&p)
+			}
+			to.eventLoop.AddEvent(m.payload)
+			w.drain(to)
+			h.observe(to)
+		}
+	}
+	k := 0
+	mk := func(view hotstuff.View, parent hotstuff.Hash, qc hotstuff.QuorumCert) *hotstuff.Block {
+		k++
+		b := hotstuff.NewBlock(parent, qc, &clientpb.Batch{Commands: []*clientpb.Command{{ClientID: 99, SequenceNumber: uint64(k), Data: []byte("byz")}}}, view, 4)
+		w.regBlock(b)
+		B.blockchain.Store(b)
+		return b
+	}
+	send := func(b *hotstuff.Block, to ...*wNode) {
+		for _, nd := range to {
+			w.byzSendTo(B, nd, hotstuff.ProposeMsg{ID: 4, Block: b})
+		}
+		flush()
+	}
+	newview := func(qc hotstuff.QuorumCert, to ...*wNode) {
+		for _, nd := range to {
+			w.byzSendTo(B, nd, hotstuff.NewViewMsg{ID: 4, SyncInfo: hotstuff.NewSyncInfoWith(qc), FromNetwork: true})
+		}
+		flush()
+	}
+	certify := func(b *hotstuff.Block) (hotstuff.QuorumCert, bool) {
+		if pc, err := B.auth.CreatePartialCert(b); err == nil {
+			B.votesSeen[b.Hash()] = append(B.votesSeen[b.Hash()], pc)
+		}
+		w.byzAssemble(B)
+		h.observe(nil)
+		for _, q := range w.qcs {
+			if q.BlockHash() == b.Hash() {
+				return q, true
+			}
+		}
+		return hotstuff.QuorumCert{}, false
+	}
+	gen := hotstuff.GetGenesis()
+	genQC := B.viewStates.HighQC()
+	// views 1..4: A <- Bk <- D <- E, everybody votes
+	parent, qc := gen.Hash(), genQC
+	var blocks []*hotstuff.Block
+	var qcs []hotstuff.QuorumCert
+	ok := true
+	for v := 1; v <= 4 && ok; v++ {
+		b := mk(hotstuff.View(v), parent, qc)
+		send(b, h1, h2, h3)
+		var q hotstuff.QuorumCert
+		q, ok = certify(b)
+		blocks, qcs = append(blocks, b), append(qcs, q)
+		parent, qc = b.Hash(), q
+	}
+	if ok {
+		A, Bk, E := blocks[0], blocks[1], blocks[3]
+		qA, qB, qE := qcs[0], qcs[1], qcs[3]
+		// F (QC E) to replica 1 only: it commits Bk
+		F := mk(5, E.Hash(), qE)
+		send(F, h1)
+		// replicas 2, 3 learn QC(E) (moves them to view 5) and get N = (view 5, parent Bk, old QC(Bk))
+		newview(qE, h2, h3)
+		N := mk(5, Bk.Hash(), qB)
+		send(N, h2, h3)
+		qN, okN := certify(N)
+		if okN {
+			newview(qN, h2, h3)
+		}
+		// W = (view 6, parent A, QC(A)) and three descendants
+		W := mk(6, A.Hash(), qA)
+		send(W, h2, h3)
+		qW, okW := certify(W)
+		par := W
+		for v := 7; v <= 10 && okW; v++ {
+			nb := mk(hotstuff.View(v), par.Hash(), qW)
+			send(nb, h2, h3)
+			qW, okW = certify(nb)
+			par = nb
 		}
 	}
 	return c01Finish(h, live, 0), nil
